@@ -21,13 +21,39 @@ def nontrivial (h : Hist) : Bool :=
     | some x => x.fromStore || x.res.kind != "resp" || !x.bgCalls.isEmpty || isSynth504 x
     | none => true
 
-partial def loop (prop : String) (stdin : IO.FS.Stream) (h : Hist) (inHash : UInt64) : IO Unit := do
+/-- what a caller and the store observe of a history, apart from the spelling of Cache-Control:
+    per exchange the result kind, status, body (with its origin token), cache status, Age, the
+    number of foreground and background origin calls, whether those were conditional, and the
+    store writes and deletes -/
+def obsSig (h : Hist) : List String :=
+  h.reqs.map fun ri =>
+    match h.ex ri with
+    | none => "nores"
+    | some x =>
+      let st := String.intercalate "|" ((statusValues x.res.hdr).map String.ofList)
+      let age := String.intercalate "|" ((Header.values x.res.hdr sAge).map String.ofList)
+      let cond := fun (c : CallEv) => s!"{Header.has c.hdr sIfNoneMatch}{Header.has c.hdr sIfModifiedSince}{c.outcome}"
+      let writes := fun (s : String) => ((h.stores ri.n s).filter (fun e => e.op != "get")).map (fun e => s!"{e.op}:{shw e.key}:{e.result}")
+      s!"{x.res.kind} {x.res.status} body={shw x.res.body} st={st} age={age} fg={x.fgCalls.map cond} bg={x.bgCalls.map cond} w={writes "fg"} bw={writes "bg"}"
+
+def monC12 (prev : Option (String × List String)) (h : Hist) : Option String :=
+  if !h.id.endsWith "~s" then none else
+  match prev with
+  | none => none
+  | some (pid, psig) =>
+    if pid ++ "~s" != h.id then none else
+    let sig := obsSig h
+    match (psig.zip sig).zipIdx.find? (fun p => p.1.1 != p.1.2) with
+    | some ((a, b), n) => some s!"exchange {n}: respelling Cache-Control changed the behaviour: canonical [{a}] respelled [{b}]"
+    | none => if psig.length != sig.length then some "different number of exchanges" else none
+
+partial def loop (prop : String) (stdin : IO.FS.Stream) (h : Hist) (inHash : UInt64) (prev : Option (String × List String) := none) : IO Unit := do
   let line ← stdin.getLine
   if line.isEmpty then return ()
   let line := (line.dropEndWhile (· == '\n')).toString
   if line.startsWith "E\t" then
     let h := h.finish
-    let mon := monitorFor2 prop h
+    let mon := if prop == "C12" then monC12 prev h else monitorFor2 prop h
     let corr := checkHistory h
     IO.println s!"STAT\t{h.id}\t{h.cls}\t{inHash}\t{if nontrivial h then 1 else 0}\t{signature h}"
     match mon with
@@ -37,10 +63,10 @@ partial def loop (prop : String) (stdin : IO.FS.Stream) (h : Hist) (inHash : UIn
     | some d => IO.println s!"DIFF\t{h.id}\t{d}"
     | none => pure ()
     if mon.isNone && corr.isNone then IO.println s!"OK\t{h.id}"
-    loop prop stdin {} 7
+    loop prop stdin {} 7 (some (h.id, obsSig h))
   else
     let inHash := if line.startsWith "I\t" then mixHash inHash (hash line) else inHash
-    loop prop stdin (parseLine h line) inHash
+    loop prop stdin (parseLine h line) inHash prev
 
 def main (args : List String) : IO UInt32 := do
   let prop := args.headD ""
